@@ -17,16 +17,19 @@ import numpy as np
 
 META = dict(
     id='C24',
-    level_text='Kernel-checked theorems, for every op list that is a group on pair states and every jump list '
-               '(unbounded N, any crystal): orbit relation is an equivalence; the state set of generate is exactly the '
-               'non-zero sums of 1..N chained jumps (+ origin states) and is G-closed when the jump list is; the '
-               'sort/shell-split/representative-matching loop returns a partition of the states into complete orbits '
-               '(any threshold >= 0, exact keys); indexdict is consistent; S(N1)+S(N2)=S(N1+N2) as state sets; '
-               'diffgenerate is exactly the set of endpoint differences; soundness of the decidable group test and of '
-               'the star/index checkers. The group hypotheses are discharged on every run for the real crystal by the '
-               'verified decidable test; the implementation is tied by differential runs (states, stars, add, diff as '
-               'canonical sets of sets) and by running the verified checkers on its actual output. Partial: the '
-               'float-threshold shell split of the implementation is not a theorem (its output is checked instead).',
+    level_text='Kernel-checked theorems (unbounded N, any crystal data, any op list passing the decidable group / '
+               'crystal-symmetry tests, any G-closed jump list): the orbit relation is an equivalence; the state set of '
+               'generate is exactly the non-zero sums of 1..N chained jumps (+ origin states), duplicate-free and G-closed; '
+               'the sort / shell-split / representative-matching loop returns a partition of the states into complete '
+               'orbits for every threshold >= 0 (exact keys; the "append to every matching star" loop never matches '
+               'twice); indexdict lookups are consistent and succeed exactly on members; S(N1)+=S(N2) has N1+N2 shells, '
+               'the states of S(N1+N2) and star for star the same members (also when the sum reaches no new state); '
+               'diffgenerate is exactly the set of endpoint differences, G-closed, and '
+               'an orbit partition; soundness of the decidable group test, of |dx|^2 invariance, and of the star/index '
+               'checkers. The hypotheses are discharged on every run for the real crystal (Lean evaluates the tests on the '
+               'extracted ops and answers "ok 1 1"); the implementation is tied by differential runs (states, stars, add, '
+               'diff as canonical sets of sets) and by the verified checkers on its actual output. Partial: the float '
+               'threshold comparison of the implementation is not a theorem (its output goes through checkStars instead).',
     level_note='Trusted: Lean kernel + standard axioms; the harness extraction of (rot, indexmap, shift) from crys.G and '
                'the rationalisation of basis/metric (residual-checked). Modelled, not verified: Python set/hash '
                'semantics, numpy float sort keys (np.dot(dx,dx)) and the 1e-8 threshold comparison.',
@@ -50,8 +53,9 @@ META['theorems'] = ['Onsager.C24.' + t for t in (
     'orbit_equivalence', 'groupClosedB_sound', 'crysOpB_x2_invariant',
     'mem_genStates_iff', 'genStates_nodup', 'genStates_G_closed',
     'splitShells_sep', 'starsOf_partition_orbits', 'OrbitPartition.complete', 'generate_stars_complete_orbits',
-    'indexdict_consistent', 'indexdict_some_iff',
-    'iaddStates_eq', 'iadd_states_eq_generate_sum', 'iadd_stars_partition',
+    'settingB_sound', 'indexdict_consistent', 'indexdict_some_iff',
+    'iaddStates_eq', 'iadd_states_eq_generate_sum', 'iadd_stars_partition', 'OrbitPartition.unique',
+    'iadd_eq_generate_sum',
     'mem_diffStates_iff', 'diffStates_G_closed', 'diffgenerate_partition',
     'checkStars_sound', 'checkIndex_sound')]
 
@@ -254,6 +258,30 @@ def lattice_network(crys, chem, jn):
 
 def net_line(classes):
     return 'net ' + show_stars(classes)
+
+
+def is_neg_closed(classes):
+    flat = set(s for c in classes for s in c)
+    return all((s[1], s[0], -s[2], -s[3], -s[4]) in flat for s in flat)
+
+
+def ask_net(ctx, B, E, name, classes, kind):
+    """ship the jump classes; the model answers the decidable hypotheses of the theorems (settingB, negClosedB) for
+    them, which must agree with the harness's own exact classification of the network"""
+    flat = [s for c in classes for s in c]
+    want_setting = is_G_closed(E, flat) and not any(iszero(s) for s in flat)
+    want_neg = is_neg_closed(classes)
+
+    def cb(a, l):
+        parts = a.split(' ')
+        if len(parts) != 4 or parts[0] != 'ok' or int(parts[1]) != len(flat):
+            ctx.disagree('net %s %s: model answered %s' % (name, kind, short(a, 80)), dict(crystal=name, request=short(l, 1500)))
+        elif (parts[2] == '1') != want_setting or (parts[3] == '1') != want_neg:
+            ctx.disagree('net %s %s: model says theorem hypotheses settingB=%s negClosedB=%s, harness classification %d/%d'
+                         % (name, kind, parts[2], parts[3], want_setting, want_neg),
+                         dict(crystal=name, request=short(l, 1500)), sig='setup:setting-test')
+        ctx.count('hyp:setting=%s,neg=%s' % (parts[2] if len(parts) == 4 else '?', parts[3] if len(parts) == 4 else '?'))
+    B.ask(net_line(classes), cb)
 
 
 def neighbour_cutoffs(crys, chem, nmax=3):
@@ -582,8 +610,12 @@ def add_case(ctx, B, E, name, classes, N1, o1, N2, o2, kind):
     replay = dict(crystal=name, chem=E.chem, lattice=repr(E.crys.lattice.tolist()),
                   basis=repr([[list(map(float, u)) for u in b] for b in E.crys.basis]),
                   jumpnetwork_lattice_form=classes, N1=N1, origin1=o1, N2=N2, origin2=o2, network=kind)
-    A = make_starset(E, classes, N1, o1)
-    Bs = make_starset(E, classes, N2, o2)
+    try:
+        A = make_starset(E, classes, N1, o1)
+        Bs = make_starset(E, classes, N2, o2)
+    except Exception as e:
+        ctx.violation('generate:raises:' + type(e).__name__, '%s: StarSet construction raised %r' % (what, e), replay)
+        return
     J = [s for c in classes for s in c]
     closed = is_G_closed(E, J)
     try:
@@ -591,7 +623,8 @@ def add_case(ctx, B, E, name, classes, N1, o1, N2, o2, kind):
     except Exception as e:
         S = e
         if o1 == o2 and N1 >= 1 and N2 >= 1:
-            ctx.violation('add:raises:' + type(e).__name__,
+            nonew = isinstance(e, IndexError) and reach(E, J, N1 + N2, o1) == reach(E, J, max(N1, N2), o1)
+            ctx.violation('add:raises:' + type(e).__name__ + (':no-new-states' if nonew else ''),
                           '%s: adding two star sets raised %r instead of equalling generate(%d)' % (what, e, N1 + N2), replay)
     if not isinstance(S, Exception):
         keys, stars = impl_view(S)
@@ -623,9 +656,13 @@ def diff_case(ctx, B, E, name, classes, N1, o1, N2, o2, kind):
     replay = dict(crystal=name, chem=E.chem, lattice=repr(E.crys.lattice.tolist()),
                   basis=repr([[list(map(float, u)) for u in b] for b in E.crys.basis]),
                   jumpnetwork_lattice_form=classes, N1=N1, origin1=o1, N2=N2, origin2=o2, network=kind)
-    A = make_starset(E, classes, N1, o1)
-    Bs = make_starset(E, classes, N2, o2)
-    D = make_starset(E, classes, 0, False)
+    try:
+        A = make_starset(E, classes, N1, o1)
+        Bs = make_starset(E, classes, N2, o2)
+        D = make_starset(E, classes, 0, False)
+    except Exception as e:
+        ctx.violation('generate:raises:' + type(e).__name__, '%s: StarSet construction raised %r' % (what, e), replay)
+        return
     J = [s for c in classes for s in c]
     try:
         D.diffgenerate(A, Bs)
@@ -700,7 +737,7 @@ def run(ctx, search_mode=False):
                 m, kind = malform(rng, E, classes)
                 if m: variants.append((m, label + '-mal-' + kind))
             for cl, kind in variants:
-                B.ask(net_line(cl), lambda a, l: None)
+                ask_net(ctx, B, E, name, cl, kind)
                 Ns = [0, 1, 2] if ctx.quick else [0, 1, 2, 3]
                 if big and ctx.quick and kind != label: Ns = [1, 2]
                 for N in Ns:
